@@ -16,7 +16,7 @@ from ..gen import triggers
 
 SUBJECT_EXCLUDED = {"lazy-ignores"}  # its subject is the suppression comments themselves
 CM = {"py": "#", "ts": "//", "js": "//", "rs": "//"}
-FORMS = ["same-line", "next-line", "block", "block2", "same-line-under-foreign-next-line", "file@1", "file@5", "file@10", "file@11", "file@40", "thailintignore", "config-ignore", "linter-ignore"]
+FORMS = ["same-line", "next-line", "block", "block2", "block-named-end", "block-bracket", "next-line-trailing", "same-line-under-foreign-next-line", "file@1", "file@5", "file@10", "file@11", "file@40", "thailintignore", "config-ignore", "linter-ignore"]
 SPELLINGS = ["full", "prefix", "wildcard", "upper", "mixed-list", "bare", "wildcard-upper", "wildcard-mixed-case", "prefix-mixed-case", "full-mixed-case",
              "bare-trailing-ws", "full-trailing-ws",  # (blanks / a tab after the directive, which an editor or a formatter may leave)
              "full-after-other-tool"]  # (the directive follows another tool's own ignore[...] comment on the same line)
@@ -82,6 +82,12 @@ def directive(cm, form, names):
         return "%s thailint: %s%s" % (cm, word, "" if names is None else "[%s]" % ",".join(names))
     if form in ("block", "block2"):
         return "%s thailint: ignore-start%s" % (cm, "" if names is None else " " + " ".join(names)), "%s thailint: ignore-end" % cm
+    if form == "block-named-end":  # the end marker repeats the rule name (docs/nesting-linter.md, srp-linter.md, dry-linter.md)
+        tail = "" if names is None else " " + " ".join(names)
+        return "%s thailint: ignore-start%s" % (cm, tail), "%s thailint: ignore-end%s" % (cm, tail)
+    if form == "block-bracket":  # docs/stateless-class-linter.md writes both markers with brackets
+        tail = "" if names is None else "[%s]" % ",".join(names)
+        return "%s thailint: ignore-start%s" % (cm, tail), "%s thailint: ignore-end%s" % (cm, tail)
     if form.startswith("file@"):
         return "%s thailint: ignore-file%s" % (cm, "" if names is None else "[%s]" % ",".join(names))
     raise ValueError(form)
@@ -106,7 +112,14 @@ def apply(files, f, line, form, names, placement="on"):
         lines.insert(tgt - 1, ind + directive(cm, form, names))
         out[f] = "\n".join(lines)
         return out, (lambda l: l + 1 if l >= tgt else l), (lambda l: l == tgt)  # scope expressed in OLD line numbers
-    if form == "block":
+    if form == "next-line-trailing":
+        # an ignore-next-line comment at the END of the target's own line: its scope is the following line, not this one
+        if placement != "on" or line >= len(lines):
+            return None
+        lines[line - 1] = lines[line - 1] + "  " + directive(cm, "next-line", names)
+        out[f] = "\n".join(lines)
+        return out, (lambda l: l), (lambda l, t=line: l == t + 1)
+    if form in ("block", "block-named-end", "block-bracket"):
         a, b = directive(cm, form, names)
         if placement == "on":
             s, e = line, line
@@ -359,10 +372,10 @@ def run_flavour(ctx, rng, files, flavour, matrix):
             forms = list(FORMS)
             if c == "file-placement":
                 # the finding has no construct line (line 1 by convention): only same-line@1, file-level and pattern forms apply
-                forms = [x for x in forms if x not in ("next-line", "block", "block2", "same-line-under-foreign-next-line")]
+                forms = [x for x in forms if x not in ("next-line", "block", "block2", "block-named-end", "block-bracket", "next-line-trailing", "same-line-under-foreign-next-line")]
             if c == "file-header":
                 # header-sensitive: a comment inserted at the top of the file changes the header itself
-                forms = [x for x in forms if x not in ("next-line", "block", "block2", "same-line-under-foreign-next-line", "file@1")]
+                forms = [x for x in forms if x not in ("next-line", "block", "block2", "block-named-end", "block-bracket", "next-line-trailing", "same-line-under-foreign-next-line", "file@1")]
             if flavour:
                 forms = [x for x in forms if x in ("same-line", "next-line", "block", "file@10", "file@11")]
             for form in forms:
@@ -381,7 +394,7 @@ def run_flavour(ctx, rng, files, flavour, matrix):
                     spellings = ["n/a"]
                 for sp in spellings:
                     cells.append({"cmd": c, "witness": w, "file": f, "lang": lang, "target": tv, "form": form, "spelling": sp, "placement": "on"})
-                if form in ("same-line", "next-line", "block", "block2"):
+                if form in ("same-line", "next-line", "block", "block2", "block-named-end", "block-bracket", "next-line-trailing"):
                     cells.append({"cmd": c, "witness": w, "file": f, "lang": lang, "target": tv, "form": form, "spelling": "other-rule", "placement": "on"})
                     cells.append({"cmd": c, "witness": w, "file": f, "lang": lang, "target": tv, "form": form, "spelling": "full", "placement": "away"})
                     if not ctx.quick:
